@@ -122,6 +122,8 @@ const (
 	EvRet                   // handler returns a value to be rendered; A=kind S=value
 	EvFS                    // file-system call; S=op+path, A=result class
 	EvEscaped               // a panic escaped ServeHTTP
+	EvRecEnter              // the built-in Recovery middleware was invoked (recorded by a wrapper around it)
+	EvRecExit               // ... and returned
 	EvAttempt               // a handler is about to write to the response through the writer it was given; A=op
 )
 
@@ -136,7 +138,7 @@ type Ev struct {
 var evNames = map[uint8]string{
 	EvEnter: "enter", EvExit: "exit", EvPanicOut: "panic-out", EvNextCall: "next(", EvNextRet: ")next", EvNextPanic: ")next!panic",
 	EvSwallow: "swallow", EvSpyHeader: "W.status", EvSpyHeader2: "W.status-again", EvSpyWrite: "W.body", EvSpyFlush: "W.flush",
-	EvSpyRefuse: "W.refuse", EvCancel: "cancel", EvNote: "note", EvBefore: "before", EvRaise: "raise", EvRet: "ret", EvFS: "fs", EvEscaped: "ESCAPED", EvAttempt: "attempt",
+	EvSpyRefuse: "W.refuse", EvCancel: "cancel", EvNote: "note", EvBefore: "before", EvRaise: "raise", EvRet: "ret", EvFS: "fs", EvEscaped: "ESCAPED", EvAttempt: "attempt", EvRecEnter: "Recovery(", EvRecExit: ")Recovery",
 }
 
 func itoa(i int) string {
